@@ -228,8 +228,81 @@ let print_pshoot = function
   | ShErr -> "err"
   | ShOk (name, c, s) -> Printf.sprintf "ok %s %s %s" (hex_of_bytes name) (string_of_z c) (string_of_z s)
 
+(* ---- variable trees of the path cases (grammar: harness/internal/a15/tree.go) ---- *)
+let parse_tree (s : string) : val0 =
+  let i = ref 0 in
+  let n = String.length s in
+  let token stop =
+    let j = ref !i in
+    while !j < n && not (String.contains stop s.[!j]) do incr j done;
+    let t = String.sub s !i (!j - !i) in
+    i := !j; t in
+  let expect c = if !i < n && s.[!i] = c then incr i else failwith ("tree: expected " ^ String.make 1 c) in
+  let rec value () =
+    let c = s.[!i] in
+    incr i;
+    match c with
+    | 's' -> VStr (bytes_of_hex (token ",)="))
+    | 'o' -> ignore (token ",)="); VOpaque
+    | 'm' ->
+        expect '(';
+        let out = ref [] in
+        while s.[!i] <> ')' do
+          let k = bytes_of_hex (token "=") in
+          expect '=';
+          let v = value () in
+          out := (k, v) :: !out;
+          if s.[!i] = ',' then incr i
+        done;
+        expect ')';
+        VMap (List.rev !out)
+    | 'l' ->
+        incr i;
+        expect '(';
+        let out = ref [] in
+        while s.[!i] <> ')' do
+          let v = value () in
+          out := v :: !out;
+          if s.[!i] = ',' then incr i
+        done;
+        expect ')';
+        VList (List.rev !out)
+    | _ -> failwith "tree: value kind" in
+  value ()
+
+let rec print_val (v : val0) : string =
+  match v with
+  | VStr b -> "s" ^ hex_of_bytes b
+  | VOpaque -> "o"
+  | VMap m ->
+      let l = List.sort compare (List.map (fun (k, x) -> (hex_of_bytes k, print_val x)) m) in
+      "m(" ^ String.concat "," (List.map (fun (k, x) -> k ^ "=" ^ x) l) ^ ")"
+  | VList l -> "l(" ^ String.concat "," (List.map print_val l) ^ ")"
+
+let print_gres = function
+  | GvOk v -> "v:" ^ print_val v
+  | GvErr -> "err"
+  | GvPanic -> "panic"
+  | GvNoDraw -> "nodraw"
+
 let predict (c : string) (obs : string) : string * string * bool =
   match split_blank c with
+  | ["path"; tree; draws; paths] ->
+      let t = (match parse_tree tree with VMap m -> m | _ -> failwith "tree: top") in
+      let ps = List.map bytes_of_hex (String.split_on_char ',' paths) in
+      let st = { g_iter = []; g_draws = List.map (fun d -> nat_of_int (int_of_string d)) (split_on ',' draws) } in
+      let p = String.concat " " (List.map print_gres (run_paths [] (List.map (fun x -> (t, x)) ps) st)) in
+      (* specification side: when every path is a canonical path (names separated by dots, lists
+         addressed as name[digits] or name[next], at most one [next]) every list addressed with
+         [next] hands out its own consecutive elements (C15_next_per_list) *)
+      let cps = List.map canon_of ps in
+      if List.for_all (fun x -> x <> None) cps then begin
+        let h = List.map (function Some cp -> (t, cp) | None -> assert false) cps in
+        let w = String.concat " " (List.map print_gres (spec_paths [] h)) in
+        let distinct_next = List.length (uniq (List.filter (fun cp -> cp <> []) (List.map (fun (_, cp) -> next_loc cp) h))) in
+        (p, verdict (obs = w) "a list addressed with [next] did not hand out its own consecutive elements (rows skipped, repeated or taken from another list's counter)",
+         distinct_next >= 2)
+      end else (p, "ok", false)
   | ["parse"; h] ->
       let p = print_pshoot (parse_shoot (bytes_of_hex h)) in
       (p, "ok", false)
